@@ -18,6 +18,7 @@ import (
 	"sort"
 	"strings"
 	"time"
+	_ "time/tzdata" // named session zones (DST) without a system zoneinfo
 
 	ledger "github.com/formancehq/ledger/internal"
 	"github.com/formancehq/ledger/internal/storage/ledgerstore"
@@ -561,7 +562,33 @@ func readJSON(js []byte) (o outcome) {
 }
 
 // the logs table row as InsertLogs fills it and PostgreSQL returns it
-func storeRow(c *ledger.ChainedLog) (row *ledgerstore.Logs, dataBack jv, err error) {
+// sessionZone: how the driver expresses the instants it returns. A `timestamp` column comes back as its wall clock
+// in a zero-offset zone; a `timestamptz` column (the bun model of Logs declares the date so) comes back as the same
+// instant in the TimeZone of the session, which is whatever the server / database / role / PGTZ say.
+type sessionZone struct {
+	name string
+	loc  *time.Location
+}
+
+func sessionZones() []sessionZone {
+	zs := []sessionZone{
+		{"wallclock+0000", time.FixedZone("", 0)},
+		{"UTC", time.UTC},
+		{"+02:00", time.FixedZone("", 2*3600)},
+		{"-05:30", time.FixedZone("", -(5*3600 + 1800))},
+		{"+14:00", time.FixedZone("", 14*3600)},
+	}
+	for _, n := range []string{"Europe/Paris", "America/New_York", "Australia/Lord_Howe"} {
+		if l, err := time.LoadLocation(n); err == nil {
+			zs = append(zs, sessionZone{n, l})
+		}
+	}
+	return zs
+}
+
+var zones = sessionZones()
+
+func storeRow(c *ledger.ChainedLog, zone sessionZone) (row *ledgerstore.Logs, dataBack jv, err error) {
 	data, err := json.Marshal(c.Data) // InsertLogs
 	if err != nil {
 		return nil, jv{}, err
@@ -591,15 +618,16 @@ func storeRow(c *ledger.ChainedLog) (row *ledgerstore.Logs, dataBack jv, err err
 	if err != nil {
 		return nil, jv{}, err
 	}
-	// column "date timestamp": the zone designator of the text is ignored, microseconds are kept; the driver
-	// hands the wall clock back as a time.Time
+	// the column keeps the instant at microsecond precision (the text written is ledger.Now()-made: UTC, so the wall
+	// clock of a `timestamp` column and the instant of a `timestamptz` column coincide); the driver hands it back as a
+	// time.Time in the zone of the session
 	wall, err := time.Parse(time.RFC3339Nano, datev.(string))
 	if err != nil {
 		return nil, jv{}, err
 	}
 	y, mo, d := wall.Date()
 	hh, mi, ss := wall.Clock()
-	back := time.Date(y, mo, d, hh, mi, ss, wall.Nanosecond()/1000*1000, time.FixedZone("", 0))
+	back := time.Date(y, mo, d, hh, mi, ss, wall.Nanosecond()/1000*1000, time.FixedZone("", 0)).In(zone.loc)
 	var date ledger.Time
 	if err := date.Scan(back); err != nil {
 		return nil, jv{}, err
@@ -870,8 +898,13 @@ func runChain(in input) (fails []failure, cases []string, rej string, stats map[
 	}
 	fail := func(i int, sig, detail string) { fails = append(fails, failure{sig, detail, i}) }
 
-	var prev, prevJ, prevR *ledger.ChainedLog // as written; as read back through JSON; as read back through the row
-	okJ, okR := true, true
+	var prev, prevJ *ledger.ChainedLog              // as written; as read back through JSON
+	prevR := make([]*ledger.ChainedLog, len(zones)) // as read back through the row, per session zone
+	okJ := true
+	okR := make([]bool, len(zones))
+	for zi := range okR {
+		okR[zi] = true
+	}
 	for i, l := range logs {
 		spec := in.Logs[i]
 		c, p := rechain(prev, *l) // commander.chainLog: log.ChainLog(lastLog)
@@ -952,33 +985,44 @@ func runChain(in input) (fails []failure, cases []string, rej string, stats map[
 			prevJ = oj.entry
 		}
 
-		// read back: stored row
-		row, dataBack, err := storeRow(c)
+		// read back: stored row, once per session time zone of the driver; the first zone feeds the Coq case
 		var or outcome
-		if err != nil {
-			fail(i, "store-error:"+cls(spec), err.Error())
-			or = outcome{kind: "err", msg: err.Error()}
-			okR = false
-		} else {
-			or = readRow(row)
-			stats["row:"+or.kind]++
-			switch or.kind {
-			case "panic":
-				fail(i, "readback:row:"+cls(spec)+":panic:"+panicClass(or.msg), or.msg)
-				okR = false
-			default:
-				if d := sameEntry(c, or.entry); d != "" {
-					fail(i, "roundtrip:row:"+cls(spec)+":changed", d)
-				}
-				if okR {
-					re, p := rechain(prevR, or.entry.Log)
-					if p != "" {
-						fail(i, "rehash:row:"+cls(spec)+":panic", p)
-					} else if !bytes.Equal(re.Hash, c.Hash) || re.ID.Cmp(c.ID) != 0 {
-						fail(i, "rehash:row:"+cls(spec), fmt.Sprintf("re-chaining the entry read back gives id %v hash %x, stored id %v hash %x", re.ID, re.Hash, c.ID, c.Hash))
+		var dataBack jv
+		for zi, zone := range zones {
+			sfx := ""
+			if zi > 1 {
+				sfx = ":session-zone-not-utc"
+			}
+			row, db, err := storeRow(c, zone)
+			var oz outcome
+			if err != nil {
+				fail(i, "store-error:"+cls(spec), err.Error())
+				oz = outcome{kind: "err", msg: err.Error()}
+				okR[zi] = false
+			} else {
+				oz = readRow(row)
+				stats["row:"+oz.kind]++
+				switch oz.kind {
+				case "panic":
+					fail(i, "readback:row:"+cls(spec)+":panic:"+panicClass(oz.msg), oz.msg)
+					okR[zi] = false
+				default:
+					if d := sameEntry(c, oz.entry); d != "" {
+						fail(i, "roundtrip:row:"+cls(spec)+":changed"+sfx, fmt.Sprintf("%s (session zone %s: date written %s, read back %s)", d, zone.name, timeText(c.Date), timeText(oz.entry.Date)))
 					}
+					if okR[zi] {
+						re, p := rechain(prevR[zi], oz.entry.Log)
+						if p != "" {
+							fail(i, "rehash:row:"+cls(spec)+":panic", p)
+						} else if !bytes.Equal(re.Hash, c.Hash) || re.ID.Cmp(c.ID) != 0 {
+							fail(i, "rehash:row:"+cls(spec)+sfx, fmt.Sprintf("session zone %s: re-chaining the entry read back gives id %v hash %x, stored id %v hash %x", zone.name, re.ID, re.Hash, c.ID, c.Hash))
+						}
+					}
+					prevR[zi] = oz.entry
 				}
-				prevR = or.entry
+			}
+			if zi == 0 {
+				or, dataBack = oz, db
 			}
 		}
 
